@@ -409,6 +409,7 @@ SetAttr(s, e, an, val) ==
   LET mv == MinVersion(s, e) IN
   IF mv.t = "err" THEN {Fail(s, mv.v)}
   ELSE IF AttrIx(Kind(s, e), an) = 0 THEN {Fail(s, "InvalidAttribute")}
+  ELSE IF ~InMask(Schema[Kind(s, e)].attrs[AttrIx(Kind(s, e), an)].mask, mv.v) THEN {Fail(s, "InvalidAttribute")}
   ELSE IF ~AttrValueFits(Kind(s, e), an, mv.v, val) THEN {Fail(s, "InvalidAttributeValue")}
   ELSE {Ok(SetAttrRaw(s, e, an, val), 0)}
 RemoveAttr(s, e, an) ==
